@@ -77,6 +77,13 @@ func linearIn(t, v *Term) (*big.Int, *Term, bool) {
 	return nil, nil, false
 }
 
+func arrRoot(a *Term) *Term {
+	for a.op == OStore {
+		a = a.args[0]
+	}
+	return a
+}
+
 func findTriggers(body, v *Term) []trigger {
 	var out []trigger
 	seen := map[int]bool{}
@@ -94,9 +101,10 @@ func findTriggers(body, v *Term) []trigger {
 				}
 			}
 		case OSelect:
-			if t.args[0].op == OVar || t.args[0].op == OUF {
-				if c, rest, ok := linearIn(t.args[1], v); ok && c.Sign() > 0 && c.IsInt64() && c.Int64() <= 64 {
-					out = append(out, trigger{name: fmt.Sprintf("sel:%d", t.args[0].id), pos: 1, rest: rest, coef: c})
+			if root := arrRoot(t.args[0]); root.op == OVar || root.op == OUF {
+				mm := map[int]bool{}
+				if c, rest, ok := linearIn(t.args[1], v); ok && c.Sign() > 0 && c.IsInt64() && c.Int64() <= 64 && !mentions(t.args[0], v, mm) {
+					out = append(out, trigger{name: fmt.Sprintf("sel:%d", root.id), pos: 1, rest: rest, coef: c})
 				}
 			}
 		case OForall:
@@ -149,8 +157,13 @@ func instantiateQuantifiers(facts []*Term, goal *Term) []*Term {
 		case OUF:
 			apps = append(apps, app{"uf:" + t.name, t.args})
 		case OSelect:
-			if t.args[0].op == OVar || t.args[0].op == OUF {
-				apps = append(apps, app{fmt.Sprintf("sel:%d", t.args[0].id), t.args})
+			if root := arrRoot(t.args[0]); root.op == OVar || root.op == OUF {
+				apps = append(apps, app{fmt.Sprintf("sel:%d", root.id), t.args})
+			}
+		case OStore:
+			// the updated index is a term of interest for every quantified fact about this array
+			if root := arrRoot(t); root.op == OVar || root.op == OUF {
+				apps = append(apps, app{fmt.Sprintf("sel:%d", root.id), []*Term{t, t.args[1]}})
 			}
 		}
 		for _, a := range t.args {
